@@ -988,4 +988,30 @@ example : (keysOfHeader [1, 2, 3, 4, 5, 6, 7, 8] (some 0)).k0 ≠ (keysOfHeader 
     (keysOfHeader [1, 2, 3, 4, 5, 6, 7, 8] (some 1)).k0 ≠ (keysOfHeader [1, 2, 3, 4, 5, 6, 7, 8] (some 0)).k0 := by
   decide +kernel
 
+/-! ### a verdict does not depend on what the thread verified before -/
+
+/-- **`verify_thread_history_independent`.**  In any sequence of verification requests handled by
+one thread — any variants, headers, nonces and proofs before and after, in any order — the verdict
+on a request is the verdict on that request alone: a function of (variant, edge bits, header,
+nonce, proof).  (This is how the model is built; it is the specification the run `pow order`
+checks on the real code, which could violate it through thread-local or static state.) -/
+theorem verify_thread_history_independent (pre post : List VReq) (x : VReq) :
+    (verifySeq (pre ++ x :: post))[pre.length]? = some (verifyReq x) := by
+  unfold verifySeq
+  rw [List.map_append, List.map_cons,
+    List.getElem?_append_right (by simp), List.length_map, Nat.sub_self]
+  rfl
+
+/-- the order of two requests does not matter, nor does a repetition (A, B, A) -/
+theorem verify_order_irrelevant (a b : VReq) :
+    verifySeq [a, b] = [verifyReq a, verifyReq b] ∧ verifySeq [b, a] = [verifyReq b, verifyReq a] ∧
+    verifySeq [a, b, a] = [verifyReq a, verifyReq b, verifyReq a] := ⟨rfl, rfl, rfl⟩
+
+/-- two requests for the same header and nonce under different graph definitions share their
+siphash keys (and only those) -/
+theorem same_header_same_keys (c d : Ctx) (hdr : Bytes) (nonce : Option Nat) (s t : Bool) :
+    (c.step (.seed hdr nonce s)).keys = (d.step (.seed hdr nonce t)).keys := by
+  simp only [Ctx.step]
+  split <;> split <;> rfl
+
 end GV.Props.C05
